@@ -331,7 +331,7 @@ class World:
                     if y not in seen and y._status_ == 'marked_to_delete': seen.append(y); todo.append(y)
             return False
         found = 0
-        res = {'all_deleted': True, 'strict_family': True, 'all_in_cycle': True}    # all_in_cycle: every blocker is on a reference cycle with p OR cascades one-to-one to p
+        res = {'all_deleted': True, 'strict_family': True, 'all_stale': True, 'all_in_cycle': True}    # all_in_cycle: every blocker is on a reference cycle with p OR cascades one-to-one to p
         for E2 in self.E:
             for attr in E2._attrs_with_columns_:
                 if not attr.reverse or attr.reverse.entity is not p.__class__: continue
@@ -348,6 +348,7 @@ class World:
                     stale = deleted and o2._vals_.get(attr, p) is not p
                     cyc = deleted and reaches(p, o2)
                     if not deleted: res['all_deleted'] = False
+                    if not stale: res['all_stale'] = False
                     # a live cascade child of p should have been queued before p by Entity._delete_, unless the rows form a cycle
                     if not (deleted and (stale or cyc or not attr.reverse.cascade_delete)): res['strict_family'] = False
                     # is p a one-to-one CASCADE TARGET of the blocker (the blocker's deletion cascades to p, so _delete_ queued p
@@ -371,7 +372,7 @@ class World:
                                 if row is not None and tuple(row) == pk2: target = True
                     if not (cyc or target): res['all_in_cycle'] = False
         res['found'] = found
-        if not found: res['all_deleted'] = res['strict_family'] = res['all_in_cycle'] = False
+        if not found: res['all_deleted'] = res['strict_family'] = res['all_in_cycle'] = res['all_stale'] = False
         return res
 
 # ---------------------------------------------------------------- the engine's own orderability analysis
@@ -1059,6 +1060,10 @@ STRICT_DELETE_KEY = 'strict-schema:DELETE-refused:delete-order-relies-on-ON-DELE
 # Pony's OWN schema: a pending UPDATE (unlinking a row from an object that is being deleted) is emitted after a DELETE whose
 # ON DELETE CASCADE / SET NULL action already changed that row in the database (cascade cycle among the deleted rows: the
 # root is queued last, the backend cascades to it from the first DELETE); the UPDATE then fails its optimistic check
+# Pony's OWN schema, FK without ON DELETE action (Required reference, no cascade): `c.ref = other; old.delete(); c.delete()` -
+# c's pending UPDATE (re-link) is cancelled by c's own deletion, c is queued behind `old`, and DELETE old is refused because
+# c's row still references it (the order DELETE c, DELETE old is accepted).  Same root cause as STRICT_DELETE_KEY.
+STALE_DELETE_KEY = 'pony-schema:DELETE-refused:stale-reference-of-a-row-deleted-later:pending-UPDATE-cancelled-by-its-own-deletion'
 PREEMPTED_UPDATE_KEY = 'pony-schema:OptimisticCheckError:pending-UPDATE-preempted-by-ON-DELETE-action-of-an-earlier-DELETE'
 CYCLE_DELETE_KEY = 'pony-schema:DELETE-refused:reference-cycle-between-deleted-rows:cascade-target-before-its-required-referrer'
 
@@ -1083,6 +1088,13 @@ def report(ctx, spec, hist, strict, what, detail, shrunk=False):
                 any(p[0] == what for p in try_history(ctx, spec, hist, False)):
             key = CYCLE_DELETE_KEY        # Pony's own schema refuses the same history for the same reason
             ctx.count('strict:delete-refused:same-as-pony-schema-finding')
+        elif refused_delete and cls.get('all_deleted') is True and cls.get('all_stale') is True and \
+                any(p[0] == what for p in try_history(ctx, spec, hist, False)):
+            key = STALE_DELETE_KEY
+            ctx.count('strict:delete-refused:same-as-pony-schema-stale-finding')
+    elif refused_delete and cls.get('all_deleted') is True and cls.get('all_stale') is True:
+        key = STALE_DELETE_KEY
+        ctx.count('pony-schema:delete-refused:stale-reference')
     elif refused_delete and cls.get('all_deleted') is True and cls.get('all_in_cycle') is True:
         # Pony's own schema refuses the DELETE: only when the blocking rows are deleted by the same flush AND reference
         # each other with the refused row (no order of plain DELETEs exists; the backend's ON DELETE action on one edge of the
@@ -1092,7 +1104,7 @@ def report(ctx, spec, hist, strict, what, detail, shrunk=False):
     if not strict and what.startswith('flush raised OptimisticCheckError') and isinstance(det, dict) and det.get('preempted_by_on_delete') is True:
         key = PREEMPTED_UPDATE_KEY
         ctx.count('pony-schema:update-preempted-by-on-delete')
-    if key not in (STRICT_DELETE_KEY, CYCLE_DELETE_KEY, PREEMPTED_UPDATE_KEY) and not shrunk:
+    if key not in (STRICT_DELETE_KEY, CYCLE_DELETE_KEY, PREEMPTED_UPDATE_KEY, STALE_DELETE_KEY) and not shrunk:
         spec2, hist2 = shrink(ctx, spec, hist, strict, what)
         return report(ctx, spec2, hist2, strict, what, detail, shrunk=True)
     if strict:
